@@ -80,6 +80,9 @@ fn main() {
         mv_sim::verif::set_sched_point(Some(sim_rayon::sim::sched_point));
     }
 
+    // the sequential copy reports its hook passes: a deterministic measure of the work a reference costs
+    mv_seq::verif::set_sched_point(Some(count_reference_work));
+
     // the seam registry's own atomics are plumbing, not scheduling points
     #[cfg(feature = "e1")]
     for a in mv_sim::verif::seam_addresses() {
@@ -110,6 +113,43 @@ fn main() {
         }
     };
     std::process::exit(code);
+}
+
+/// Hook passes of the sequential copy of the library (neighbour loops, clipping loops, heap pops of the
+/// periodic neighbour iterator, exact predicates): work done by reference computations, in a unit that does
+/// not depend on the machine or its load.
+pub static REFERENCE_WORK: std::sync::atomic::AtomicU64 = std::sync::atomic::AtomicU64::new(0);
+
+thread_local! {
+    static THREAD_WORK: std::cell::Cell<u64> = const { std::cell::Cell::new(0) };
+}
+
+/// A reference that needs more hook passes than this (about a second of sequential work; ordinary runs need
+/// 0.3 - 15 million) is abandoned, and the run it belongs to is not simulated: a few pathological inputs
+/// (thousands of generators on the faces of a periodic box) cost a shard its whole time budget otherwise.
+/// Counted per thread; every reference is computed on a thread of its own. Deterministic: a count, not a time.
+pub const REFERENCE_WORK_BUDGET: u64 = 80_000_000;
+pub const WORK_BUDGET_MSG: &str = "verif: reference work budget exceeded";
+
+fn count_reference_work(_site: u32) {
+    REFERENCE_WORK.fetch_add(1, std::sync::atomic::Ordering::Relaxed);
+    let n = THREAD_WORK.with(|w| {
+        let n = w.get() + 1;
+        w.set(n);
+        n
+    });
+    if n == REFERENCE_WORK_BUDGET + 1 {
+        panic!("{}", WORK_BUDGET_MSG);
+    }
+}
+
+/// Start counting afresh on this thread (for references computed on a long-lived thread).
+pub fn reset_reference_work() {
+    THREAD_WORK.with(|w| w.set(0));
+}
+
+pub fn over_budget(o: &vcore::Outcome) -> bool {
+    matches!(o, vcore::Outcome::Panic(m) if m.starts_with(WORK_BUDGET_MSG))
 }
 
 pub fn write_replay(dir: &str, name: &str, j: &vcore::J) -> String {
